@@ -9,7 +9,7 @@ use serde::{Deserialize, Serialize};
 use serde_json::json;
 use std::sync::OnceLock;
 use vcore::gen::{apply_mutations, build_addr, mutation, Comp, Mutation};
-use vcore::refcodec::{pb_bytes, pb_parse, pb_varint, read_uvarint};
+use vcore::refcodec::{lp, pb_bytes, pb_parse, pb_varint, read_uvarint, uvarint};
 use vcore::runner::{catch, LANES};
 use vcore::{ensure, Ctx, Outcome};
 
@@ -160,9 +160,21 @@ fn ascii(max: usize) -> impl Strategy<Value = String> {
     proptest::collection::vec(prop_oneof![4 => 0x61u8..0x7b, 1 => Just(b'-'), 1 => Just(b'/'), 1 => 0x20u8..0x7f], 0..max).prop_map(|v| String::from_utf8(v).unwrap())
 }
 
+/// ASCII string whose length lies around the 1-byte | 2-byte boundary of the unsigned-varint length prefix
+fn ascii_around_128() -> impl Strategy<Value = String> {
+    proptest::collection::vec(prop_oneof![4 => 0x61u8..0x7b, 1 => Just(b'-'), 1 => Just(b'/')], 120..137).prop_map(|v| String::from_utf8(v).unwrap())
+}
+
 fn env_case() -> impl Strategy<Value = EnvCase> {
-    let domain = prop_oneof![2 => ascii(24), 1 => Just(LEGACY_DOMAIN.to_string()), 1 => Just(INTEROP_DOMAIN.to_string()), 1 => "\\PC{0,8}"];
-    let ptype = prop_oneof![3 => ascii(24).prop_map(|s| s.into_bytes()), 1 => Just(LEGACY_TYPE.to_vec()), 1 => Just(INTEROP_TYPE.to_vec()), 1 => proptest::collection::vec(any::<u8>(), 0..12)];
+    let domain = prop_oneof![4 => ascii(24), 2 => Just(LEGACY_DOMAIN.to_string()), 2 => Just(INTEROP_DOMAIN.to_string()), 2 => "\\PC{0,8}", 1 => ascii_around_128()];
+    let ptype = prop_oneof![
+        6 => ascii(24).prop_map(|s| s.into_bytes()),
+        2 => Just(LEGACY_TYPE.to_vec()),
+        2 => Just(INTEROP_TYPE.to_vec()),
+        2 => proptest::collection::vec(any::<u8>(), 0..12),
+        1 => proptest::collection::vec(any::<u8>(), 120..137),
+    ];
+    let payload = prop_oneof![6 => proptest::collection::vec(any::<u8>(), 0..80), 1 => proptest::collection::vec(any::<u8>(), 120..137)];
     let probe = prop_oneof![
         2 => Just(Probe::Same),
         2 => ascii(24).prop_map(Probe::Domain),
@@ -177,7 +189,7 @@ fn env_case() -> impl Strategy<Value = EnvCase> {
         1 => Just(Probe::Type(LEGACY_TYPE.to_vec())),
         1 => Just(Probe::Type(INTEROP_TYPE.to_vec())),
     ];
-    (key_spec(), domain, ptype, proptest::collection::vec(any::<u8>(), 0..80), probe).prop_map(|(key, domain, ptype, payload, probe)| EnvCase { key, domain, ptype, payload, probe })
+    (key_spec(), domain, ptype, payload, probe).prop_map(|(key, domain, ptype, payload, probe)| EnvCase { key, domain, ptype, payload, probe })
 }
 
 /// harness-side envelope encoder (field numbers from envelope.proto)
@@ -304,6 +316,9 @@ fn check_env(c: &EnvCase) -> Outcome {
     // `verify` alone only binds the domain
     if same_envelope {
         ensure!(target.verify(d2.clone()) == (d2 == c.domain), "C21:verify-disagrees-with-domain-equality", detail());
+    }
+    if [c.domain.len(), c.ptype.len(), c.payload.len()].iter().any(|l| (120..137).contains(l)) {
+        labels.push("field-len-120..136");
     }
     labels.push(match &c.probe {
         Probe::Same => "probe:same",
@@ -453,6 +468,646 @@ fn check_rec(c: &RecCase) -> Outcome {
         }
     }
     Outcome::pass_l(!expect_ok, labels)
+}
+
+// ---------------------------------------------------------------------------------------------
+// (3b) byte layout of the signed buffer (differential against an independent RFC0002 construction)
+//      and sequences of queries on one envelope object
+
+/// RFC0002 signature buffer, built with the harness' own varint writer:
+/// varint(len(domain)) ‖ domain ‖ varint(len(payload_type)) ‖ payload_type ‖ varint(len(payload)) ‖ payload
+fn rfc0002_buffer(domain: &str, ptype: &[u8], payload: &[u8]) -> Vec<u8> {
+    let mut v = lp(domain.as_bytes());
+    v.extend(lp(ptype));
+    v.extend(lp(payload));
+    v
+}
+
+/// `len` bytes: `pat` repeated (empty pattern = zeros)
+#[derive(Clone, Debug, PartialEq, Eq, Serialize, Deserialize)]
+pub struct Fill {
+    len: u32,
+    pat: Vec<u8>,
+}
+
+impl Fill {
+    fn bytes(&self) -> Vec<u8> {
+        if self.pat.is_empty() {
+            vec![0; self.len as usize]
+        } else {
+            self.pat.iter().cycle().take(self.len as usize).copied().collect()
+        }
+    }
+}
+
+/// a string of exactly `len` bytes: the characters of `pat` repeated while they fit, then 'x'
+#[derive(Clone, Debug, PartialEq, Eq, Serialize, Deserialize)]
+pub struct DomFill {
+    len: u32,
+    pat: String,
+}
+
+impl DomFill {
+    fn string(&self) -> String {
+        let len = self.len as usize;
+        let chars: Vec<char> = self.pat.chars().collect();
+        let mut s = String::with_capacity(len);
+        if !chars.is_empty() {
+            let mut i = 0;
+            loop {
+                let ch = chars[i % chars.len()];
+                if s.len() + ch.len_utf8() > len {
+                    break;
+                }
+                s.push(ch);
+                i += 1;
+            }
+        }
+        while s.len() < len {
+            s.push('x');
+        }
+        s
+    }
+}
+
+#[derive(Clone, Debug, Serialize, Deserialize)]
+pub enum DomSpec {
+    Fill(DomFill),
+    Legacy,
+    Interop,
+}
+
+#[derive(Clone, Debug, Serialize, Deserialize)]
+pub enum TypeSpec {
+    Fill(Fill),
+    Legacy,
+    Interop,
+}
+
+#[derive(Clone, Debug, Serialize, Deserialize)]
+pub enum PayloadSpec {
+    Raw(Fill),
+    /// a peer-record payload; `pad_to`: pad with an unknown protobuf field (15) to exactly that many bytes if possible
+    Record { claimed: Option<KeySpec>, seq: u64, addrs: Vec<Vec<Comp>>, pad_to: Option<u32> },
+}
+
+#[derive(Clone, Copy, Debug, PartialEq, Eq, Serialize, Deserialize)]
+pub enum Origin {
+    /// `SignedEnvelope::new`
+    Api,
+    /// signed by the harness over its own RFC0002 buffer, protobuf-encoded by the harness, decoded by the code under test
+    Reference,
+}
+
+#[derive(Clone, Copy, Debug, PartialEq, Eq, Serialize, Deserialize)]
+pub enum Target {
+    /// the one envelope object that lives through the whole sequence
+    Object,
+    /// a clone of that object taken right now
+    CloneNow,
+    /// a second long-lived object: a clone taken before the first query
+    EarlyClone,
+    /// the object encoded to protobuf and decoded again right now
+    Reencoded,
+}
+
+#[derive(Clone, Copy, Debug, PartialEq, Eq, Serialize, Deserialize)]
+pub enum Method {
+    Payload,
+    Verify,
+    RecordLegacy,
+    RecordInterop,
+}
+
+#[derive(Clone, Debug, Serialize, Deserialize)]
+pub enum DomAsk {
+    Signed,
+    Legacy,
+    Interop,
+    Fill(DomFill),
+    /// the signed domain without its last character
+    DropLast,
+    /// the signed domain followed by one letter
+    Append(u8),
+}
+
+#[derive(Clone, Debug, Serialize, Deserialize)]
+pub enum TypeAsk {
+    Signed,
+    Legacy,
+    Interop,
+    Fill(Fill),
+    DropLast,
+    Append(u8),
+}
+
+#[derive(Clone, Debug, Serialize, Deserialize)]
+pub struct Query {
+    target: Target,
+    method: Method,
+    /// used by Payload and Verify
+    dom: DomAsk,
+    /// used by Payload
+    typ: TypeAsk,
+}
+
+#[derive(Clone, Debug, Serialize, Deserialize)]
+pub struct SeqCase {
+    key: KeySpec,
+    origin: Origin,
+    domain: DomSpec,
+    ptype: TypeSpec,
+    payload: PayloadSpec,
+    queries: Vec<Query>,
+}
+
+/// field lengths: small, and around the points where the unsigned-varint length prefix grows (127|128, 16383|16384)
+fn field_len() -> impl Strategy<Value = u32> {
+    prop_oneof![
+        1 => Just(0u32),
+        4 => 0u32..40,
+        4 => 126u32..=129,
+        1 => 40u32..126,
+        1 => 130u32..700,
+        1 => 16382u32..=16385,
+    ]
+}
+
+fn fill() -> impl Strategy<Value = Fill> {
+    (field_len(), prop_oneof![4 => proptest::collection::vec(any::<u8>(), 1..6), 1 => Just(vec![])]).prop_map(|(len, pat)| Fill { len, pat })
+}
+
+fn dom_fill() -> impl Strategy<Value = DomFill> {
+    (field_len(), prop_oneof![3 => "[a-z/-]{1,4}", 1 => "\\PC{1,3}"]).prop_map(|(len, pat)| DomFill { len, pat })
+}
+
+/// `recordish`: the envelope is (nearly) a peer-record envelope — domain and type mostly the legacy or the interop
+/// constants (mostly of the same format), payload a record, and the record readers asked more often
+fn seq_case_with(recordish: bool) -> BoxedStrategy<SeqCase> {
+    let pad = proptest::option::weighted(0.5, prop_oneof![4 => 126u32..=130, 1 => 130u32..400, 1 => 16382u32..=16386]);
+    let record = (proptest::option::weighted(0.25, key_spec()), prop_oneof![Just(0u64), Just(1u64), any::<u64>()], proptest::collection::vec(vcore::gen::dial_addr(), 0..4), pad)
+        .prop_map(|(claimed, seq, addrs, pad_to)| PayloadSpec::Record { claimed, seq, addrs, pad_to });
+    let signed: BoxedStrategy<(DomSpec, TypeSpec, PayloadSpec)> = if recordish {
+        // (format, how the domain is chosen, how the type is chosen): 0..6 = of the format, 6..8 = of the other format, 8..10 = arbitrary
+        (any::<bool>(), 0u8..10, 0u8..10, dom_fill(), fill(), prop_oneof![1 => fill().prop_map(PayloadSpec::Raw), 9 => record])
+            .prop_map(|(interop, dc, tc, df, tf, payload)| {
+                let domain = match dc {
+                    0..=5 => if interop { DomSpec::Interop } else { DomSpec::Legacy },
+                    6..=7 => if interop { DomSpec::Legacy } else { DomSpec::Interop },
+                    _ => DomSpec::Fill(df),
+                };
+                let ptype = match tc {
+                    0..=5 => if interop { TypeSpec::Interop } else { TypeSpec::Legacy },
+                    6..=7 => if interop { TypeSpec::Legacy } else { TypeSpec::Interop },
+                    _ => TypeSpec::Fill(tf),
+                };
+                (domain, ptype, payload)
+            })
+            .boxed()
+    } else {
+        (
+            prop_oneof![4 => dom_fill().prop_map(DomSpec::Fill), 1 => Just(DomSpec::Legacy), 1 => Just(DomSpec::Interop)],
+            prop_oneof![4 => fill().prop_map(TypeSpec::Fill), 1 => Just(TypeSpec::Legacy), 1 => Just(TypeSpec::Interop)],
+            prop_oneof![3 => fill().prop_map(PayloadSpec::Raw), 2 => record],
+        )
+            .boxed()
+    };
+    let target = prop_oneof![5 => Just(Target::Object), 2 => Just(Target::CloneNow), 1 => Just(Target::EarlyClone), 1 => Just(Target::Reencoded)];
+    let rec_w = if recordish { 3 } else { 1 };
+    let method = prop_oneof![4 => Just(Method::Payload), 3 => Just(Method::Verify), rec_w => Just(Method::RecordLegacy), rec_w => Just(Method::RecordInterop)];
+    let dom = prop_oneof![
+        5 => Just(DomAsk::Signed),
+        1 => Just(DomAsk::Legacy),
+        1 => Just(DomAsk::Interop),
+        2 => dom_fill().prop_map(DomAsk::Fill),
+        1 => Just(DomAsk::DropLast),
+        1 => any::<u8>().prop_map(DomAsk::Append),
+    ];
+    let typ = prop_oneof![
+        6 => Just(TypeAsk::Signed),
+        1 => Just(TypeAsk::Legacy),
+        1 => Just(TypeAsk::Interop),
+        1 => fill().prop_map(TypeAsk::Fill),
+        1 => Just(TypeAsk::DropLast),
+        1 => any::<u8>().prop_map(TypeAsk::Append),
+    ];
+    let query = (target, method, dom, typ).prop_map(|(target, method, dom, typ)| Query { target, method, dom, typ });
+    (key_spec(), prop_oneof![Just(Origin::Api), Just(Origin::Reference)], signed, proptest::collection::vec(query, 2..5))
+        .prop_map(|(key, origin, (domain, ptype, payload), queries)| SeqCase { key, origin, domain, ptype, payload, queries })
+        .boxed()
+}
+
+fn seq_case() -> impl Strategy<Value = SeqCase> {
+    prop_oneof![3 => seq_case_with(false), 2 => seq_case_with(true)]
+}
+
+/// append an unknown length-delimited field (number 15) so that the message is exactly `target` bytes long, if that is possible
+fn pad_record(mut v: Vec<u8>, target: usize) -> (Vec<u8>, bool) {
+    if target < v.len() {
+        return (v, false);
+    }
+    let room = target - v.len();
+    for hdr in [2usize, 3, 4] {
+        if room < hdr {
+            continue;
+        }
+        let n = room - hdr;
+        if 1 + uvarint(n as u64).len() == hdr {
+            v.extend(pb_bytes(15, &vec![0xaa; n]));
+            return (v, true);
+        }
+    }
+    (v, false)
+}
+
+/// what the harness knows about the payload when it is read as a peer record
+enum RecTruth {
+    /// random bytes: almost certainly not a record; if one is accepted its peer id must still be the signer's
+    Raw,
+    Record { claimed: PeerId, seq: u64, addrs: Vec<Multiaddr>, padded: bool },
+}
+
+#[derive(Clone, Copy, Debug, PartialEq, Eq)]
+enum Exp {
+    Accept,
+    Reject,
+    /// acceptance is not required (a record carrying an unknown field); an accepted answer must still carry the signed content
+    AcceptOptional,
+}
+
+/// the answer of the code under test to one query, reduced to what the oracle compares
+#[derive(Debug, PartialEq, Eq)]
+enum Answer {
+    Rejected,
+    Verified,
+    Payload(Vec<u8>, libp2p_identity::PublicKey),
+    Record(PeerId, u64, Vec<Multiaddr>),
+}
+
+/// ask one question; for an accepted record also hands back the envelope the record carries
+fn ask(env: &SignedEnvelope, m: Method, d: &str, t: &[u8]) -> Result<(Answer, Option<SignedEnvelope>), String> {
+    catch(|| match m {
+        Method::Verify => (if env.verify(d.to_string()) { Answer::Verified } else { Answer::Rejected }, None),
+        Method::Payload => match env.payload_and_signing_key(d.to_string(), t) {
+            Ok((p, k)) => (Answer::Payload(p.to_vec(), k.clone()), None),
+            Err(_) => (Answer::Rejected, None),
+        },
+        Method::RecordLegacy | Method::RecordInterop => {
+            let r = if m == Method::RecordLegacy { PeerRecord::from_signed_envelope(env.clone()) } else { PeerRecord::from_signed_envelope_interop(env.clone()) };
+            match r {
+                Ok(rec) => (Answer::Record(rec.peer_id(), rec.seq(), rec.addresses().to_vec()), Some(rec.into_signed_envelope())),
+                Err(_) => (Answer::Rejected, None),
+            }
+        }
+    })
+}
+
+fn short(s: &str) -> String {
+    if s.len() <= 48 {
+        s.to_string()
+    } else {
+        let cut = (0..=40).rev().find(|i| s.is_char_boundary(*i)).unwrap_or(0);
+        format!("{}… ({} bytes)", &s[..cut], s.len())
+    }
+}
+
+fn short_hex(b: &[u8]) -> String {
+    if b.len() <= 40 {
+        hex(b)
+    } else {
+        format!("{}… ({} bytes)", hex(&b[..32]), b.len())
+    }
+}
+
+fn check_seq(c: &SeqCase) -> Outcome {
+    let Some(kp) = c.key.build() else { return Outcome::Discard };
+    let pk = kp.public();
+    let pk_pb = pk.encode_protobuf();
+    let signer_id = pk.to_peer_id();
+    let domain = match &c.domain {
+        DomSpec::Fill(f) => f.string(),
+        DomSpec::Legacy => LEGACY_DOMAIN.to_string(),
+        DomSpec::Interop => INTEROP_DOMAIN.to_string(),
+    };
+    let ptype = match &c.ptype {
+        TypeSpec::Fill(f) => f.bytes(),
+        TypeSpec::Legacy => LEGACY_TYPE.to_vec(),
+        TypeSpec::Interop => INTEROP_TYPE.to_vec(),
+    };
+    let (payload, truth) = match &c.payload {
+        PayloadSpec::Raw(f) => (f.bytes(), RecTruth::Raw),
+        PayloadSpec::Record { claimed, seq, addrs, pad_to } => {
+            let claimed = match claimed {
+                None => signer_id,
+                Some(k) => match k.build() {
+                    Some(k) => k.public().to_peer_id(),
+                    None => return Outcome::Discard,
+                },
+            };
+            let addrs: Vec<Multiaddr> = addrs.iter().map(|a| build_addr(a)).collect();
+            let (bytes, padded) = match pad_to {
+                Some(t) => pad_record(rec_payload(&claimed, *seq, &addrs), *t as usize),
+                None => (rec_payload(&claimed, *seq, &addrs), false),
+            };
+            (bytes, RecTruth::Record { claimed, seq: *seq, addrs, padded })
+        }
+    };
+    let mut labels = vec![type_label(&kp)];
+    for (l, at128, ge128) in [(domain.len(), "domain-len-128", "domain-len>=128"), (ptype.len(), "type-len-128", "type-len>=128"), (payload.len(), "payload-len-128", "payload-len>=128")] {
+        labels.push(match l {
+            0 => "field-len-0",
+            127 => "field-len-127",
+            128 => "field-len-128",
+            129 => "field-len-129",
+            16383 => "field-len-16383",
+            16384 => "field-len-16384",
+            _ => "field-len-other",
+        });
+        if l == 128 {
+            labels.push(at128);
+        }
+        if l >= 128 {
+            labels.push(ge128);
+        }
+    }
+    if let RecTruth::Record { padded, claimed, .. } = &truth {
+        labels.push("payload:record");
+        if *padded {
+            labels.push("payload:record-padded");
+        }
+        if *claimed != signer_id {
+            labels.push("payload:record-claims-other-peer");
+        }
+    }
+    let base = || json!({"key": type_label(&kp), "domain": short(&domain), "domain_len": domain.len(), "type": short_hex(&ptype), "type_len": ptype.len(), "payload": short_hex(&payload), "payload_len": payload.len()});
+
+    // --- layout differential --------------------------------------------------------------------
+    let ref_buf = rfc0002_buffer(&domain, &ptype, &payload);
+    // (a) what SignedEnvelope::new signs is the RFC0002 buffer
+    let api_env = match SignedEnvelope::new(&kp, domain.clone(), ptype.clone(), payload.clone()) {
+        Ok(e) => e,
+        Err(e) => return Outcome::fail("C21:signing-failed", e.to_string()),
+    };
+    let api_enc = api_env.clone().into_protobuf_encoding();
+    let Some(fields) = envelope_fields(&api_enc) else { return Outcome::fail("C21:envelope-encoding-not-rfc-shaped", short_hex(&api_enc)) };
+    ensure!(fields[0] == pk_pb && fields[1] == ptype && fields[2] == payload, "C21:envelope-encoding-fields-differ", base());
+    ensure!(pk.verify(&ref_buf, &fields[3]), "C21:envelope-signature-not-over-rfc0002-buffer", base());
+    // (b) an envelope signed over the RFC0002 buffer by someone else's code is accepted with exactly (domain, type)
+    let ref_sig = match kp.sign(&ref_buf) {
+        Ok(s) => s,
+        Err(e) => return Outcome::fail("C21:signing-failed", e.to_string()),
+    };
+    let ref_enc = encode_envelope(&pk_pb, &ptype, &payload, &ref_sig);
+    let decode = |bytes: &[u8]| match catch(|| SignedEnvelope::from_protobuf_encoding(bytes)) {
+        Err(p) => Err(Outcome::fail("C21:panic-decoding-envelope", p)),
+        Ok(Err(e)) => Err(Outcome::fail("C21:well-formed-envelope-rejected-by-decoder", json!({"err": e.to_string(), "case": base()}))),
+        Ok(Ok(e)) => Ok(e),
+    };
+    let ref_env = match decode(&ref_enc) {
+        Ok(e) => e,
+        Err(o) => return o,
+    };
+    match ask(&ref_env, Method::Payload, &domain, &ptype) {
+        Err(p) => return Outcome::fail("C21:panic-in-payload-and-signing-key", p),
+        Ok((Answer::Payload(p, k), _)) => ensure!(p == payload && k == pk, "C21:accepted-envelope-yields-other-payload-or-key", base()),
+        Ok(_) => return Outcome::fail("C21:rfc0002-conforming-envelope-rejected", base()),
+    }
+
+    // --- query sequence on one object -----------------------------------------------------------
+    // the object has not been queried yet (the differential above used its own decoded instance)
+    let (mut obj, signed_enc) = match c.origin {
+        Origin::Api => (api_env, api_enc),
+        Origin::Reference => match decode(&ref_enc) {
+            Ok(e) => (e, ref_enc),
+            Err(o) => return o,
+        },
+    };
+    labels.push(if c.origin == Origin::Api { "origin:api" } else { "origin:reference" });
+    let early = obj.clone();
+    // history of each long-lived object: was a query accepted / rejected before?
+    let (mut obj_ok, mut obj_rej, mut early_ok, mut early_rej) = (false, false, false, false);
+    let mut history: Vec<String> = vec![];
+    let mut any_reject = false;
+    for (i, q) in c.queries.iter().enumerate() {
+        let d2 = match &q.dom {
+            DomAsk::Signed => domain.clone(),
+            DomAsk::Legacy => LEGACY_DOMAIN.to_string(),
+            DomAsk::Interop => INTEROP_DOMAIN.to_string(),
+            DomAsk::Fill(f) => f.string(),
+            DomAsk::DropLast => {
+                let mut d = domain.clone();
+                d.pop();
+                d
+            }
+            DomAsk::Append(b) => format!("{domain}{}", (b'a' + b % 26) as char),
+        };
+        let t2 = match &q.typ {
+            TypeAsk::Signed => ptype.clone(),
+            TypeAsk::Legacy => LEGACY_TYPE.to_vec(),
+            TypeAsk::Interop => INTEROP_TYPE.to_vec(),
+            TypeAsk::Fill(f) => f.bytes(),
+            TypeAsk::DropLast => ptype[..ptype.len().saturating_sub(1)].to_vec(),
+            TypeAsk::Append(b) => [&ptype[..], &[*b]].concat(),
+        };
+        // the reference: decided from what was signed alone, never from earlier answers
+        let record_fmt = |f: Fmt| domain == domain_of(f) && ptype == type_of(f);
+        let exp = match q.method {
+            Method::Verify => {
+                if d2 == domain {
+                    Exp::Accept
+                } else {
+                    Exp::Reject
+                }
+            }
+            Method::Payload => {
+                if d2 == domain && t2 == ptype {
+                    Exp::Accept
+                } else {
+                    Exp::Reject
+                }
+            }
+            Method::RecordLegacy | Method::RecordInterop => {
+                let f = if q.method == Method::RecordLegacy { Fmt::Legacy } else { Fmt::Interop };
+                match &truth {
+                    _ if !record_fmt(f) => Exp::Reject,
+                    RecTruth::Record { claimed, .. } if *claimed != signer_id => Exp::Reject,
+                    RecTruth::Record { padded: false, .. } => Exp::Accept,
+                    _ => Exp::AcceptOptional,
+                }
+            }
+        };
+        let want = match (q.method, &truth) {
+            (Method::Verify, _) => Some(Answer::Verified),
+            (Method::Payload, _) => Some(Answer::Payload(payload.clone(), pk.clone())),
+            (_, RecTruth::Record { claimed, seq, addrs, .. }) => Some(Answer::Record(*claimed, *seq, addrs.clone())),
+            (_, RecTruth::Raw) => None,
+        };
+        let conforms = |a: &Answer| match (a, exp) {
+            (Answer::Rejected, Exp::Reject | Exp::AcceptOptional) => true,
+            (Answer::Rejected, Exp::Accept) | (_, Exp::Reject) => false,
+            // accepted: must carry exactly the signed content (random bytes that happen to parse as a record: at least the signer's id)
+            (a, _) => match &want {
+                Some(w) => a == w,
+                None => matches!(a, Answer::Record(p, ..) if *p == signer_id),
+            },
+        };
+        let (prior_ok, prior_rej) = match q.target {
+            Target::Object | Target::CloneNow => (obj_ok, obj_rej),
+            Target::EarlyClone => (early_ok, early_rej),
+            Target::Reencoded => (false, false),
+        };
+        let scratch;
+        let tgt: &SignedEnvelope = match q.target {
+            Target::Object => &obj,
+            Target::EarlyClone => &early,
+            Target::CloneNow => {
+                scratch = obj.clone();
+                &scratch
+            }
+            Target::Reencoded => {
+                let enc = obj.clone().into_protobuf_encoding();
+                ensure!(enc == signed_enc, "C21:envelope-encoding-changed-by-queries", base());
+                scratch = match decode(&enc) {
+                    Ok(e) => e,
+                    Err(o) => return o,
+                };
+                &scratch
+            }
+        };
+        let (ans, carried) = match ask(tgt, q.method, &d2, &t2) {
+            Ok(a) => a,
+            Err(p) => return Outcome::fail(if matches!(q.method, Method::RecordLegacy | Method::RecordInterop) { "C21:panic-in-from-signed-envelope" } else { "C21:panic-in-payload-and-signing-key" }, p),
+        };
+        let accepted = ans != Answer::Rejected;
+        if !conforms(&ans) {
+            // the same question put to a freshly decoded envelope: does the wrong answer come from the history of the object?
+            let fresh_ok = decode(&signed_enc).ok().and_then(|e| ask(&e, q.method, &d2, &t2).ok()).map(|(a, _)| conforms(&a)).unwrap_or(false);
+            let is_rec = matches!(q.method, Method::RecordLegacy | Method::RecordInterop);
+            let sig = if fresh_ok {
+                "C21:envelope-answer-depends-on-earlier-queries"
+            } else if !accepted {
+                if is_rec {
+                    "C21:genuine-peer-record-rejected"
+                } else if q.method == Method::Verify {
+                    "C21:verify-disagrees-with-domain-equality"
+                } else {
+                    "C21:genuine-envelope-rejected"
+                }
+            } else if exp != Exp::Reject {
+                if is_rec {
+                    "C21:accepted-record-differs-from-signed-content"
+                } else {
+                    "C21:accepted-envelope-yields-other-payload-or-key"
+                }
+            } else if is_rec {
+                let f = if q.method == Method::RecordLegacy { Fmt::Legacy } else { Fmt::Interop };
+                if ptype != type_of(f) {
+                    "C21:peer-record-accepted-with-other-payload-type"
+                } else if domain != domain_of(f) {
+                    "C21:peer-record-accepted-with-other-domain"
+                } else {
+                    "C21:peer-record-accepted-for-peer-other-than-signer"
+                }
+            } else if q.method == Method::Verify {
+                "C21:verify-disagrees-with-domain-equality"
+            } else if t2 != ptype {
+                "C21:envelope-accepted-with-other-payload-type"
+            } else {
+                "C21:envelope-accepted-with-other-domain"
+            };
+            return Outcome::fail(
+                sig,
+                json!({"signed": base(), "origin": format!("{:?}", c.origin), "query_index": i, "target": format!("{:?}", q.target), "method": format!("{:?}", q.method),
+                       "asked_domain": short(&d2), "asked_type": short_hex(&t2), "expected": format!("{exp:?}"), "accepted": accepted,
+                       "same_query_on_fresh_envelope_is_right": fresh_ok, "earlier_queries": history}),
+            );
+        }
+        // labels: what the sequence exercised
+        labels.push(match q.method {
+            Method::Verify => "query:verify",
+            Method::Payload => "query:payload",
+            _ => "query:record",
+        });
+        labels.push(match q.target {
+            Target::Object => "target:object",
+            Target::CloneNow => "target:clone-now",
+            Target::EarlyClone => "target:early-clone",
+            Target::Reencoded => "target:reencoded",
+        });
+        if exp == Exp::Reject {
+            any_reject = true;
+        }
+        if prior_ok {
+            labels.push("query-after-successful-verify");
+            if exp == Exp::Reject {
+                labels.push("must-reject-after-successful-verify");
+                match q.method {
+                    Method::Verify | Method::Payload => {
+                        if d2 != domain {
+                            labels.push("wrong-domain-after-successful-verify");
+                        }
+                        if q.method == Method::Payload && t2 != ptype {
+                            labels.push("wrong-type-after-successful-verify");
+                        }
+                    }
+                    _ => {
+                        labels.push("wrong-format-or-peer-record-after-successful-verify");
+                        let f = if q.method == Method::RecordLegacy { Fmt::Legacy } else { Fmt::Interop };
+                        if ptype == type_of(f) && domain != domain_of(f) && matches!(&truth, RecTruth::Record { claimed, .. } if *claimed == signer_id) {
+                            labels.push("own-record-of-other-domain-read-after-successful-verify");
+                        }
+                    }
+                }
+            } else if accepted {
+                labels.push("accepted-again-after-successful-verify");
+            }
+        }
+        if prior_rej && accepted {
+            labels.push("accepted-after-rejection");
+        }
+        if let Answer::Record(..) = ans {
+            labels.push("record-accepted-in-sequence");
+            if matches!(truth, RecTruth::Record { padded: true, .. }) {
+                labels.push("padded-record-accepted");
+            }
+        }
+        history.push(format!("{:?} {:?} domain={:?} type={} -> {}", q.target, q.method, short(&d2), short_hex(&t2), if accepted { "accepted" } else { "rejected" }));
+        match q.target {
+            Target::Object => {
+                if accepted {
+                    obj_ok = true;
+                } else {
+                    obj_rej = true;
+                }
+                // an accepted record carries "the original instance" of the envelope: keep using that one
+                if let Some(e) = carried {
+                    ensure!(e == obj, "C21:record-carries-other-envelope", base());
+                    obj = e;
+                }
+            }
+            Target::EarlyClone => {
+                if accepted {
+                    early_ok = true;
+                } else {
+                    early_rej = true;
+                }
+            }
+            Target::CloneNow | Target::Reencoded => {
+                if let Some(e) = carried {
+                    ensure!(e == obj, "C21:record-carries-other-envelope", base());
+                }
+            }
+        }
+    }
+    labels.push(match c.queries.len() {
+        0 | 1 => "queries:1",
+        2 => "queries:2",
+        3 => "queries:3",
+        _ => "queries:4+",
+    });
+    labels.sort_unstable();
+    labels.dedup();
+    Outcome::pass_l(any_reject, labels)
 }
 
 // ---------------------------------------------------------------------------------------------
@@ -682,6 +1337,13 @@ pub fn run(ctx: &mut Ctx) {
         ctx.n(12_000, 400_000),
         &|| env_case().boxed(),
         &check_env,
+    );
+    ctx.check::<SeqCase>(
+        "envelope-layout-and-query-sequences",
+        "key × (domain, payload type, payload) with byte lengths small and around the varint boundaries 127|128 and 16383|16384 (payload: bytes or a peer record, optionally padded to such a length) . (a) the signature made by SignedEnvelope::new must verify over the harness' own RFC0002 buffer, (b) an envelope signed by the harness over that buffer must be accepted with exactly (domain, type); then 2..4 queries (payload_and_signing_key / verify / PeerRecord::from_signed_envelope[_interop]; signed / other / near-miss domain and type) in generated order on one envelope object (made by the API or from the reference encoding), its clones and re-encodings: every answer must be what the signed (domain, type, payload, signer) alone predicts; non-trivial = at least one query of the sequence must be rejected",
+        ctx.n(16_000, 400_000),
+        &|| seq_case().boxed(),
+        &check_seq,
     );
     ctx.check::<RecCase>(
         "peer-record",
